@@ -16,7 +16,8 @@ Proof      : coq/Props/C01.v over Model/Commit.v (interleaving machine of the OC
 Tie        : trace validation.  Real Table / MetadataManager / FileLock code runs under harness/lib/sched.py
              (deterministic scheduler, protocol-level yield points, virtual clock) with the committers as threads of one
              process AND placed in several OS processes (harness/lib/procsched.py: worker processes stepped over pipes at
-             the same yield points, one merged log); the observed storage log is projected onto the model's event alphabet
+             the same yield points, one merged log; a worker can be SIGKILLed inside its critical section = the machines'
+             ECrash / LKill); the observed storage log is projected onto the model's event alphabet
              and `Commit.run_strict` must accept it event by event (each event carries what the code read / decided); final
              pointer, flip order and outcomes must agree.  A storage call the projection does not know is a failure.
              Lock layer: every primitive on the lock file (open, non-blocking flock, unlock, close), per FileLock handle
@@ -50,7 +51,7 @@ MANIFEST_ENTRY = {
                   "discipline of the primitive the source calls; C01_lock_exclusive_any_topology, C01_lock_refines_excl, "
                   "C01_lock_not_dropped_by_others); the model is tied to the code by trace validation: real commits run under a "
                   "deterministic scheduler at storage-operation granularity, as threads of one process and distributed over "
-                  "several OS processes, and every observed protocol event and every primitive on the lock file (with the real "
+                  "several OS processes (including the death of a process inside its critical section), and every observed protocol event and every primitive on the lock file (with the real "
                   "kernel's answer) must be accepted by the models' strict runs; the validation kernel, the stamp rule, the action "
                   "skeleton of MetadataManager.commit, the retry / handler tables (translator/gen_commit.py) and FileLock's "
                   "primitive skeleton and lock discipline (translator/gen_filelock.py) are regenerated from the source and the "
@@ -172,7 +173,9 @@ def _run(ctx, case: Dict[str, Any], chooser_factory, tag: str, inject=None) -> P
     if case.get("procs") is not None:
         if inject:
             raise ValueError("fault injection is per harness-process actor")
-        return PS.run_case(ctx.scratch, _fix_case(case), chooser_factory, _pool(), tag=tag + "p")
+        k = case.get("kill")
+        return PS.run_case(ctx.scratch, _fix_case(case), chooser_factory, _pool(), tag=tag + "p",
+                           kill={"actor": k["actor"], "when": STOPS[k["stop"]]} if k else None)
     res = P.run_case(ctx.scratch, _fix_case(case), chooser_factory, tag=tag, inject=inject)
     res.locklog = list(getattr(P.S_current(), "locklog", []))
     return res
@@ -225,6 +228,10 @@ def project_locks(res: P.CaseResult) -> Tuple[str, int]:
     evs: List[str] = []
     opens = 0
     for i, e in enumerate(res.locklog):
+        if e["prim"] == "kill":
+            if e["pid"] in pidx:                   # a process none of whose handles ever touched the lock file holds nothing
+                evs.append(f"LKill {pidx[e['pid']]}")
+            continue
         if not e.get("known", False):
             raise P.Nonconforming(f"lock primitive outside the vocabulary of the lock layer (os.open, fcntl.flock LOCK_EX|LOCK_NB, "
                                   f"fcntl.flock LOCK_UN, os.close) at locklog[{i}]: {e['prim']} by {e['actor']}")
@@ -255,6 +262,29 @@ def project_locks(res: P.CaseResult) -> Tuple[str, int]:
     term = (f"match lrun_strict gen_lock_disc {topo} linit ([" + "; ".join(evs) + "]%nat) 0%nat with "
             f"| inl s => (1, lsummary s) | inr i => (0, (None, i, 0%nat)) end")
     return term, opens
+
+
+def project_with_kills(res: P.CaseResult, n: int, cas: bool, lease: bool):
+    """protocol.project; a process killed by the harness (log entry ProcessKilled, one per actor that lived in it) becomes the
+    machine's ECrash for that actor at that point of the trace."""
+    kills = [i for i, e in enumerate(res.log) if e["op"] == "ProcessKilled"]
+    if not kills:
+        return P.project(res, n, cas=cas, lease=lease)
+    full = P.CaseResult()
+    full.initial = res.initial
+    full.log = [e for e in res.log if e["op"] != "ProcessKilled"]
+    events, vids, notes = P.project(full, n, cas=cas, lease=lease)
+    inserted = 0
+    for k, i in enumerate(kills):
+        pre = P.CaseResult()
+        pre.initial = res.initial
+        pre.log = [e for e in res.log[:i] if e["op"] != "ProcessKilled"]
+        ev_pre, _v, _n = P.project(pre, n, cas=cas, lease=lease)
+        if ev_pre != events[:inserted + len(ev_pre)][:len(ev_pre)] and [x for x in events[:len(ev_pre) + inserted] if x[1] != "ECrash"] != ev_pre:
+            raise P.Nonconforming("the trace before the process death is not a prefix of the whole trace")
+        events.insert(len(ev_pre) + inserted, (int(res.log[i]["actor"][1:]), "ECrash"))
+        inserted += 1
+    return events, vids, notes
 
 
 def lock_attempts_agree(res: P.CaseResult) -> Optional[str]:
@@ -458,8 +488,8 @@ def check_runs(ctx, name: str, runs: List[Tuple[Dict[str, Any], Any, P.CaseResul
             except P.Nonconforming as e:
                 lbad.append({"case": _case_json(case), "schedule": res.schedule, "nonconforming": str(e)})
         try:
-            events, vids, _notes = P.project(res, len(case["ops"]), cas=(case.get("backend") == "s3cas"),
-                                            lease=(case.get("backend") == "s3cas" and case.get("lock", "real") == "real"))
+            events, vids, _notes = project_with_kills(res, len(case["ops"]), cas=(case.get("backend") == "s3cas"),
+                                                      lease=(case.get("backend") == "s3cas" and case.get("lock", "real") == "real"))
         except P.Nonconforming as e:
             bad.append({"case": _case_json(case), "schedule": res.schedule, "nonconforming": str(e)})
             events, vids = None, {}
@@ -498,7 +528,8 @@ def check_runs(ctx, name: str, runs: List[Tuple[Dict[str, Any], Any, P.CaseResul
         final_vid = vids.get(res.final.get("pointer"), -1)
         flips = [int(e["actor"][1:]) for e in res.log if e["op"] in ("write_file", "write_file_cas") and P.path_class(e["path"]) == "hint" and e["result"] == "ok"]
         exp_codes = [1 if res.outcomes[f"A{i}"][0] == "ok" and res.outcomes[f"A{i}"][1] != "noop" else
-                     (2 if "ConcurrentModification" in res.outcomes[f"A{i}"][1] else 0) for i in range(len(case["ops"]))]
+                     (2 if "ConcurrentModification" in res.outcomes[f"A{i}"][1] else
+                      (4 if res.outcomes[f"A{i}"][1].startswith("ProcessKilled") else 0)) for i in range(len(case["ops"]))]
         if ptr_or_idx != final_vid or [a for (_v, a) in hist] != flips or list(codes) != exp_codes:
             bad.append({"case": _case_json(case), "schedule": res.schedule, "model": {"ptr": ptr_or_idx, "hist": hist, "codes": codes},
                         "impl": {"ptr": final_vid, "flips": flips, "codes": exp_codes, "outcomes": res.outcomes}})
@@ -522,8 +553,10 @@ def run(ctx) -> None:
                 "(append / expire / delete-snapshot old|current) x process topology {all committers threads of one process; "
                 "committers placed in 2-3 OS processes: several handles in one process next to handles in others, one process per "
                 "handle, shared or separate handles per process} with contention scripts (one committer parked inside its critical "
-                "section while every other tries the lock, all placements and orders), bounded-preemption enumeration and random "
-                "schedules; distinct = distinct executed schedule per case")
+                "section while every other tries the lock, all placements and orders), release-window scripts at the granularity of "
+                "every lock-file primitive (one committer between the unlock and the close of its release while another takes the "
+                "lock), a process killed inside its critical section, bounded-preemption enumeration and random schedules; "
+                "distinct = distinct executed schedule per case")
     ctx.trusted_base += [
         "harness/lib/sched.py + protocol.py: deterministic scheduler, projection of the storage log onto Model/Commit.v events",
         "harness/lib/procsched.py: worker processes stepped over pipes (same yield points, merged log)",
@@ -600,6 +633,14 @@ def run(ctx) -> None:
             for sc_ in scripts:
                 res = _run(ctx, case, script_chooser(sc_), tag="c01t")
                 runs.append((case, [("script", sc_)], res))
+        # 5d. a process dies inside its critical section (SIGKILL of the worker, after the fence / before the flip): the kernel
+        #      drops its lock, the others commit; the dead committer is not reflected
+        for procs, victim in (([[0, 1], [2]], "A2"), ([[0], [1, 2]], "A1")) if quick else \
+                (([[0, 1], [2]], "A2"), ([[0], [1, 2]], "A1"), ([[0], [1, 2]], "A2"), ([[0], [1], [2]], "A1")):
+            for stop in ("flip", "fence"):
+                case = {"ops": hand[1], "clock": "tick", "topology": "separate", "procs": procs, "kill": {"actor": victim, "stop": stop}}
+                res = _run(ctx, case, dev_chooser({}), tag="c01k")
+                runs.append((case, [], res))
         # 5b. two committers in two processes (and both in one worker process): bounded-preemption enumeration
         for ops in (OPSETS[:4] if quick else OPSETS):
             for procs in PROC_TOPOLOGIES[2][:1 if quick else 2]:
@@ -626,6 +667,7 @@ def run(ctx) -> None:
     ctx.stats["release_window_schedules"] = sum(1 for c, d, _r in runs if d and d[0][0] == "script" and c.get("fine_locks") == "all")
     ctx.stats["contention_script_schedules"] = sum(1 for c, d, _r in runs if d and d[0][0] == "script" and c.get("procs") is not None and not c.get("fine_locks"))
     ctx.stats["schedules"] = len(runs)
+    ctx.stats["process_deaths"] = sum(1 for _c, _d, r in runs for e in getattr(r, "locklog", []) if e["prim"] == "kill")
     ctx.stats["runs_cut_by_deadlock"] = sum(1 for _c, _d, r in runs if r.deadlock)
     ctx.stats["conflict_retries_observed"] = sum(1 for _c, _d, r in runs for e in r.log if e["op"] == "Sleep")
     ctx.stats["by_clock"] = {c: sum(1 for k, _d, _r in runs if k["clock"] == c) for c in ("frozen", "coarse", "tick")}
